@@ -204,7 +204,7 @@ def family_shards(tier):
     out = []
     fams = [(2, 2), (3, 1), (3, 2), (2, 3)] if tier == "quick" else [(2, 2), (3, 1), (3, 2), (2, 3), (4, 1), (3, 3), (4, 2)]
     # stars: one producer, k consumers (several consumers of one remote dataset land on one host in a single round)
-    for k, hosts, K in ([(4, "2x2", 2), (3, "1x2", 2)] if tier == "quick" else [(4, "2x2", 4), (3, "2x2", 5), (4, "3x2", 3), (3, "1x2", 4)]):
+    for k, hosts, K in ([(4, "2x2", 2), (3, "1x2", 2), (3, "3x1", 3)] if tier == "quick" else [(4, "2x2", 4), (3, "2x2", 5), (4, "3x2", 3), (3, "1x2", 4)]):
         n = k + 1
         fixed = {f"{i}-{j}": (1 if i == 0 else 0) for i in range(n) for j in range(i + 1, n)}
         out.append({"n": n, "multi": [0] * n, "hosts": hosts, "K": K, "fixed": fixed, "family": f"star of {k}"})
